@@ -20,7 +20,7 @@ func c15family(thorough bool, add func(cfg *Config, bound int, maxExec int64, or
 				}
 				c /= len(alphabet)
 			}
-			if !thorough && w == 3 && nRetry > 1 {
+			if w == 3 && ((!thorough && nRetry > 1) || nRetry > 2) {
 				continue
 			}
 			for k := 0; k <= w+1; k++ {
@@ -41,7 +41,7 @@ func c15family(thorough bool, add func(cfg *Config, bound int, maxExec int64, or
 					if join == 1 {
 						cfg.Steps = append(cfg.Steps, StepCfg{Name: "j", Depends: names})
 					}
-					add(cfg, 0, 3000000, "C15")
+					add(cfg, 0, 600000, "C15")
 				}
 			}
 		}
@@ -50,7 +50,7 @@ func c15family(thorough bool, add func(cfg *Config, bound int, maxExec int64, or
 	sharpC := &Config{MaxActive: 1, Steps: []StepCfg{retrying(st("a"), 1, 1, 1000), st("b")}}
 	sharpD := &Config{MaxActive: 2, Steps: []StepCfg{retrying(st("a"), 1, 1, 1000), st("b"), st("c")}}
 	if thorough {
-		add(sharpC, 2, 3000000, "C15")
+		add(sharpC, 2, 1500000, "C15")
 		add(sharpD, 1, 0, "C15")
 	} else {
 		add(sharpC, 1, 300000, "C15")
